@@ -53,29 +53,48 @@ func (c Cfg) String() string {
 // ignored when intermediate key caching is disabled; see DESIGN.md, finding F10).
 func (c Cfg) IKCached() bool { return c.CacheIK }
 
-// Policy builds the SDK crypto policy for c.
+// Policy builds the SDK crypto policy for c. Wherever the SDK offers a public PolicyOption for a setting it is
+// used (that is how applications and the gRPC sidecar configure the SDK); only the settings without an option are
+// assigned as fields. The oracles take their bounds from c, so an option that sets the wrong field shows up as a
+// violation of the timing/caching properties.
 func (c Cfg) Policy() *appencryption.CryptoPolicy {
-	p := appencryption.NewCryptoPolicy()
-	p.ExpireKeyAfter = c.Expire
-	p.RevokeCheckInterval = c.Revoke
-	p.CreateDatePrecision = c.Precision
-	p.CacheIntermediateKeys = c.CacheIK
-	p.CacheSystemKeys = c.CacheSK
-	p.IntermediateKeyCacheEvictionPolicy = c.IKPolicy
-	if c.IKCap > 0 {
-		p.IntermediateKeyCacheMaxSize = c.IKCap
+	opts := []appencryption.PolicyOption{
+		appencryption.WithExpireAfterDuration(c.Expire),
+		appencryption.WithRevokeCheckInterval(c.Revoke),
 	}
-	p.SharedIntermediateKeyCache = c.SharedIK
+	noCache := !c.CacheIK && !c.CacheSK
+	if noCache {
+		opts = append(opts, appencryption.WithNoCache())
+	}
+	sharedOpt := c.SharedIK && c.IKCap > 0
+	if sharedOpt {
+		opts = append(opts, appencryption.WithSharedIntermediateKeyCache(c.IKCap))
+	}
+	if c.SessCache {
+		opts = append(opts, appencryption.WithSessionCache())
+	}
+	if c.SessCap > 0 {
+		opts = append(opts, appencryption.WithSessionCacheMaxSize(c.SessCap))
+	}
+	if c.SessDur > 0 {
+		opts = append(opts, appencryption.WithSessionCacheDuration(c.SessDur))
+	}
+	p := appencryption.NewCryptoPolicy(opts...)
+	p.CreateDatePrecision = c.Precision
+	if !noCache {
+		p.CacheIntermediateKeys = c.CacheIK
+		p.CacheSystemKeys = c.CacheSK
+	}
+	p.IntermediateKeyCacheEvictionPolicy = c.IKPolicy
+	if !sharedOpt {
+		if c.IKCap > 0 {
+			p.IntermediateKeyCacheMaxSize = c.IKCap
+		}
+		p.SharedIntermediateKeyCache = c.SharedIK
+	}
 	p.SystemKeyCacheEvictionPolicy = c.SKPolicy
 	if c.SKCap > 0 {
 		p.SystemKeyCacheMaxSize = c.SKCap
-	}
-	p.CacheSessions = c.SessCache
-	if c.SessCap > 0 {
-		p.SessionCacheMaxSize = c.SessCap
-	}
-	if c.SessDur > 0 {
-		p.SessionCacheDuration = c.SessDur
 	}
 	p.SessionCacheEvictionPolicy = c.SessPolicy
 	return p
@@ -87,10 +106,10 @@ func Default(expire, revoke, precision time.Duration) Cfg {
 }
 
 var (
-	policies    = []string{"", "simple", "lru", "lfu", "slru", "tinylfu"}
-	evictPol    = []string{"lru", "lfu", "slru", "tinylfu"}
-	capacities  = []int{1, 2, 3, 10, 99, 100, 101, 1000}
-	sessCaps    = []int{1, 2, 1000}
+	policies   = []string{"", "simple", "lru", "lfu", "slru", "tinylfu"}
+	evictPol   = []string{"lru", "lfu", "slru", "tinylfu"}
+	capacities = []int{1, 2, 3, 10, 99, 100, 101, 1000}
+	sessCaps   = []int{1, 2, 1000}
 )
 
 // RandomCfg draws a configuration tuple. The timing precondition Expire >= 2*Precision always holds.
